@@ -193,6 +193,10 @@ def finish(prop, tier, seed, level, results, dead, t0, m):
     for f in violations:
         key = (f['kind'], ','.join(f.get('tags') or []))
         table[key] = table.get(key, 0) + 1
+    if os.environ.get('VERIF_DUMP'):
+        with open(os.environ['VERIF_DUMP'], 'a') as fh:
+            for (kind, tg), n in table.items():
+                fh.write(json.dumps({'prop': prop, 'tier': tier, 'seed': seed, 'kind': kind, 'tags': tg, 'n': n}) + '\n')
     for (kind, tg), n in sorted(table.items(), key=lambda kv: -kv[1])[:40]:
         print(f'  [{n:5d}] kind={kind} tags={tg or "-"}')
     _occ = {}
